@@ -541,7 +541,7 @@ func (t *ZeroAllocTokenizer) TokenizeHtmlPreserving() ([]Token, error) {
 			} else {
 				// Process variable tags with optimized tokenization
 				if len(tagContent) > 0 {
-					if !strings.ContainsAny(tagContent, ".|[](){}\"',+-*/=!<>%&^~") {
+					if isSimpleName(tagContent) {
 						// Simple variable name
 						identifier := t.GetStringConstant(tagContent)
 						t.AddToken(TOKEN_NAME, identifier, t.line)
@@ -824,6 +824,21 @@ func (t *ZeroAllocTokenizer) tokenizeTemplatePath(path string) {
 		// Otherwise tokenize as expression
 		t.TokenizeExpression(path)
 	}
+}
+
+// isSimpleName reports whether the content of a print tag is a single
+// identifier, which can be emitted as one name token without further
+// tokenization (numbers, keywords separated by spaces, etc. cannot)
+func isSimpleName(s string) bool {
+	if len(s) == 0 || !(isCharAlpha(s[0]) || s[0] == '_') {
+		return false
+	}
+	for i := 1; i < len(s); i++ {
+		if !(isCharAlpha(s[i]) || s[i] == '_' || (s[i] >= '0' && s[i] <= '9')) {
+			return false
+		}
+	}
+	return true
 }
 
 // isCharAlpha checks if a byte is an alphabetic character
@@ -1269,7 +1284,7 @@ func (t *ZeroAllocTokenizer) TokenizeOptimized() ([]Token, error) {
 				// Process variable tags using optimized tokenization
 				if len(tagContent) > 0 {
 					// Check if it's a simple variable or a complex expression
-					if !strings.ContainsAny(tagContent, ".|[](){}\"',+-*/=!<>%&^~") {
+					if isSimpleName(tagContent) {
 						// Simple variable name - use string interning for efficiency
 						identifier := Intern(tagContent)
 						t.AddToken(TOKEN_NAME, identifier, t.line)
